@@ -29,6 +29,13 @@ func (e *Exec) RunFunction(fn *ssa.Function) (err error) {
 	if c := e.contractOf(fn); c != nil && c.Options["exact"] {
 		e.Opt.Exact = true
 	}
+	if c := e.contractOf(fn); c != nil && c.Options["exact-compare"] {
+		e.Opt.Exact = true
+		e.Opt.ExactCompare = true
+	}
+	if c := e.contractOf(fn); c != nil && c.Options["operands-kept"] {
+		e.Opt.OperandsKept = true
+	}
 	if c := e.contractOf(fn); c != nil && c.Options["no-lambda"] {
 		e.Opt.NoLambda = true // bulk copies as pattern-guarded quantified axioms instead of lambda arrays
 	}
@@ -755,6 +762,29 @@ func (e *Exec) loopInvariants(fr *Frame, h *ssa.BasicBlock, phis []*ssa.Phi, ini
 			}
 		}
 	}
+	// family O: a number carried around the loop is a value, or a math/big object of this activation
+	if e.Opt.OperandsKept {
+		tags := e.bigPtrTags()
+		for pi, phi := range phis {
+			phi := phi
+			init, ok := initVals[phi].(*Term)
+			if !ok || init.Sort != SObj || len(tags) == 0 {
+				continue
+			}
+			pname := phi.Comment
+			if pname == "" {
+				pname = fmt.Sprintf("phi%d", pi)
+			}
+			add(pname+":own-number", true, func(v map[*ssa.Phi]Value, st *State) *Term {
+				t := v[phi].(*Term)
+				var isBig []*Term
+				for _, tg := range tags {
+					isBig = append(isBig, Eq(App(SInt, "o-tag", t), tg))
+				}
+				return Implies(Or(isBig...), e.mineTerm(App(SInt, "o-int", t)))
+			})
+		}
+	}
 	// a slice that grows by one element per iteration of a counting loop
 	for pi, sp := range phis {
 		sp := sp
@@ -1115,6 +1145,21 @@ func (e *Exec) mergeExact(fr *Frame, phi *ssa.Phi, b *ssa.BasicBlock, ins []edge
 	if any && m != nil {
 		e.setExact(fr, phi, m)
 	}
+}
+
+// bigPtrTags: type tags of *slip.Bignum, *slip.Ratio, *slip.LongFloat.
+func (e *Exec) bigPtrTags() []*Term {
+	sp := e.P.SPkgs[ModPath]
+	if sp == nil {
+		return nil
+	}
+	var out []*Term
+	for _, n := range []string{"Bignum", "Ratio", "LongFloat"} {
+		if o := sp.Pkg.Scope().Lookup(n); o != nil {
+			out = append(out, IntLit(int64(e.tag(types.NewPointer(o.Type())))))
+		}
+	}
+	return out
 }
 
 func (e *Exec) listTag() *Term {
